@@ -218,14 +218,14 @@ def run(ctx):
         return False
 
     def readiness(ev):
-        t = ev.data.get("text", "")
+        t = ctx.norm.xtext(ev.fi, ev.node)
         return "is_operation_ready" in t or ("_job_next_operation_index" in t and "position_in_job" in t)
 
     def eligibility(ev):
         n = ev.node
         return (
             isinstance(n, ast.Compare) and len(n.ops) == 1 and isinstance(n.ops[0], (ast.NotIn, ast.In))
-            and "machines" in ast.unparse(n.comparators[0])
+            and "machines" in ctx.norm.xtext(ev.fi, n.comparators[0])
         )
 
     if has_raise_under(paths, readiness, "readiness", dispatch):
@@ -302,7 +302,7 @@ def run(ctx):
     np_ = eng.paths(nxt, disp)
 
     def joblen(ev):
-        t = ev.data.get("text", "")
+        t = ctx.norm.xtext(ev.fi, ev.node)
         return "len(" in t and "_job_next_operation_index" in t
 
     if has_raise_under(np_, joblen, "job length", nxt):
